@@ -776,6 +776,62 @@ waitClients:
 	return
 }
 
+// c20MasterDeath (informational, never a verdict - the statement speaks of a pool that has a
+// master): the master is killed (-9) while its workers are still starting up, or while they serve;
+// how many worker processes are still alive a few seconds later is written into the evidence. A
+// worker that never notices keeps the listening socket and would answer requests outside any pool.
+func c20MasterDeath(c *Ctx, bin string) {
+	for vi, v := range []struct {
+		name        string
+		workerDelay int
+		killAfterMs int
+	}{{"while-workers-start", 1500, 400}, {"while-workers-idle", 0, 1500}} {
+		dir := filepath.Join(c.Scratch, fmt.Sprintf("pm-death-%d", vi))
+		os.MkdirAll(dir, 0o755)
+		port := freePort()
+		if port == 0 {
+			continue
+		}
+		pidFile := filepath.Join(dir, "master.pid")
+		cmd := exec.Command(bin, "-addr", fmt.Sprintf("tcp://127.0.0.1:%d", port), "-init", "3", "-max", "3", "-timeout", "2", "-log", filepath.Join(dir, "events.log"), "-pidfile", pidFile, "-workerdelay", fmt.Sprint(v.workerDelay))
+		cmd.Dir = dir
+		cmd.SysProcAttr = &syscall.SysProcAttr{Setpgid: true}
+		if err := cmd.Start(); err != nil {
+			continue
+		}
+		time.Sleep(time.Duration(v.killAfterMs) * time.Millisecond)
+		_, _, before := childrenOf(cmd.Process.Pid)
+		syscall.Kill(cmd.Process.Pid, syscall.SIGKILL)
+		cmd.Wait()
+		alive := func() int {
+			n := 0
+			for _, p := range before {
+				if data, err := os.ReadFile(fmt.Sprintf("/proc/%d/stat", p)); err == nil {
+					if f := strings.Fields(string(data)); len(f) > 2 && f[2] != "Z" {
+						n++
+					}
+				}
+			}
+			return n
+		}
+		left := alive()
+		for t := 0; t < 40 && left > 0; t++ {
+			time.Sleep(100 * time.Millisecond)
+			left = alive()
+		}
+		c.Count("master_killed_"+v.name+"_children_at_kill", int64(len(before)))
+		c.Count("master_killed_"+v.name+"_workers_alive_4s_later", int64(left))
+		if left > 0 {
+			fmt.Printf("NOTE (not a verdict): master killed %s: %d of %d worker processes still alive 4 s later\n", v.name, left, len(before))
+		}
+		// leave nothing behind
+		syscall.Kill(-cmd.Process.Pid, syscall.SIGKILL)
+		for _, p := range before {
+			syscall.Kill(p, syscall.SIGKILL)
+		}
+	}
+}
+
 func readPid(path string) int {
 	data, err := os.ReadFile(path)
 	if err != nil {
@@ -912,6 +968,9 @@ func checkC20(c *Ctx) {
 				return
 			}
 		}
+	}
+	if os.Getenv("VERIF_C20_ONLY") == "" || os.Getenv("VERIF_C20_ONLY") == "masterdeath" {
+		c20MasterDeath(c, bin)
 	}
 	results := make([]c20Result, len(scenarios))
 	// the schedules of interest are timing sensitive: scenarios with an injected exec delay
